@@ -22,7 +22,7 @@ ASSUMPTIONS = ["vf/units_ref.py table (typed from the SI brochure) defines the S
 N = {"quick": 2400, "thorough": 32000}
 MIN_REACH = {"quick": {"definition": 1500, "composition": 1200, "si": 1500, "refusal": 400, "evaluate_expression": 300,
                        "celsius": 300, "mass_exponent_not_0_1": 200, "prefix_table": 20, "every_unit_as_source": 50,
-                       "every_unit_as_target": 50, "evaluate_expression_with_plain_units": 300, "foreign_dimension": 100},
+                       "every_unit_as_target": 50, "evaluate_expression_with_plain_units": 300, "foreign_dimension": 100, "evaluate_expression_floats": 1500, "evaluate_quantity": 1000},
              "thorough": {"definition": 20000, "composition": 15000}}
 SHARD_TIMEOUT = {"quick": 300, "thorough": 2400}
 EXPS = [Fr(1), Fr(1), Fr(1), Fr(-1), Fr(2), Fr(-2), Fr(3), Fr(1, 2), Fr(-1, 2)]
@@ -215,6 +215,21 @@ def run_case(c, rec):
         if not numeval.close(v_in, v_out, rel=mpmath.mpf("1e-10")):
             rec.violation("evaluate_expression-value", f"evaluate_expression({e}) = {ee}: value {mpmath.nstr(v_out, 12)} != {mpmath.nstr(v_in, 12)}", c)
             return
+        # ... also when the SI numbers are evaluated to floats (evaluate=True), whatever their magnitude
+        for kw in ({"evaluate": True}, {"evaluate": True, "n": 25}):
+            ee2 = evaluate_expression(e, **kw)
+            v2 = numeval.Evaluator({x: xv}, quantity="si").ev(ee2)
+            rec.hit("evaluate_expression_floats")
+            if ee2.atoms(sympy.physics.units.Quantity) or not numeval.close(v_in, v2, rel=mpmath.mpf("1e-9")):
+                rec.violation("evaluate_expression-value:evaluate=True", f"evaluate_expression({e}, {kw}) = {ee2}: value {mpmath.nstr(v2, 12)} != {mpmath.nstr(v_in, 12)}", c)
+                return
+        # evaluate_quantity: same SI value, same dimension
+        from symplyphysics.core.convert import evaluate_quantity
+        eq_ = evaluate_quantity(q)
+        rec.hit("evaluate_quantity")
+        if not close(mp_of(units_ref.observed_si_value(eq_)), si_q, "1e-12") or units_ref.observed_vector(eq_.dimension) != qvec:
+            rec.violation("evaluate_quantity", f"evaluate_quantity({val}*{qe}) has SI value {mp_of(units_ref.observed_si_value(eq_))} / dimension {eq_.dimension}; own table {mpmath.nstr(si_q, 15)}", c)
+            return
     except numeval.NotEvaluable:
         rec.add("evaluate_expression_not_evaluable")
     except Exception as x_:  # pylint: disable=broad-except
@@ -324,7 +339,7 @@ def gen_case(r, names):
     if kind == "rational":
         value = str(Fr(r.randint(-9999, 9999) or 7, r.choice([1, 1, 10, 1000, 7])))
     else:
-        value = repr(r.choice([1.5, 2.25e-7, 3.3e12, -0.125, 6.02e23, 9.81]))
+        value = repr(r.choice([1.5, 2.25e-7, 3.3e12, -0.125, 6.02e23, 9.81, 1.6e-19, 6.626e-34, 1.38e-23]))
     uspec = same_vector_spec(r, qvec, names)
     vspec = same_vector_spec(r, qvec, names)
     wspec = rand_spec(r, names, 1)
